@@ -35,11 +35,33 @@ def helper(c, gname, d=None, smear=None, level=3.5):
     d = c["d"] if d is None else d
     smear = c["smear"] if smear is None else smear
     f_start = g["fmin"] + c["s0"] * unit
-    drift = d * unit / g["dt"]
+    # a drift of a whole number of channels per step is given as exactly k * unit_drift_rate
+    drift = (d // FQ) * fr.unit_drift_rate if d % FQ == 0 else d * unit / g["dt"]
     width = c["w"] * unit
-    out = fr.add_constant_signal(f_start=f_start, drift_rate=drift, level=level, width=width, f_profile_type=c["type"],
-                                 doppler_smearing=smear)
+    from astropy import units as u
+    q = (c["s0"] + c["w"] + c["T"]) % 3               # plain floats, or quantities in other units than Hz
+    if q == 1:
+        args = dict(f_start=(f_start * u.Hz).to(u.MHz), drift_rate=drift * u.Hz / u.s, width=(width * u.Hz).to(u.kHz))
+    elif q == 2:
+        args = dict(f_start=f_start * u.Hz, drift_rate=(drift * u.Hz / u.s).to(u.kHz / u.s), width=(width * u.Hz).to(u.MHz))
+    else:
+        args = dict(f_start=f_start, drift_rate=drift, width=width)
+    out = fr.add_constant_signal(level=level, f_profile_type=c["type"], doppler_smearing=smear, **args)
     return fr, out, f_start, drift, width
+
+
+def edge_mask(c, out, shape):
+    """Pixels exactly on the edge of a compact profile (|f - centre| == w/2 for some sub-step): a unit conversion of the width
+    moves the edge by an ulp, so neither outcome is judged there."""
+    m = np.zeros(shape, dtype=bool)
+    n = out["n"]
+    for i in range(shape[0]):
+        for j in range(shape[1]):
+            for k in range(n):
+                cc = c["s0"] + c["d"] * i + (k * c["d"] / n if c["smear"] else 0)
+                if abs(abs(FQ * j - cc) - c["w"] / 2.0) < 1e-6:
+                    m[i, j] = True
+    return m
 
 
 def check(out, gname):
@@ -68,7 +90,7 @@ def check(out, gname):
             n = out["n"]
             cands = [c["s0"] + c["d"] * i + (k * c["d"] / n if c["smear"] else 0) for k in range(n)]
             on_edge = any(abs(abs(FQ * j - cc) - c["w"] / 2.0) < 1e-6 for cc in cands)
-            if on_edge and c["type"] == "box":
+            if on_edge:
                 diff[i, j] = False
     bad_eq = diff & mask
     if np.any(bad_eq):
@@ -79,7 +101,7 @@ def check(out, gname):
     if np.any(bad_other):
         i, j = np.argwhere(bad_other)[0]
         raise Div("equal_or_zero", {"pixel": [int(i), int(j)], "general": float(gen[i, j])}, {"helper": float(h[i, j])})
-    if np.any((gen == 0) & (h != 0)):
+    if np.any((gen == 0) & (np.abs(h) > tol) & ~edge_mask(c, out, h.shape)):
         raise Div("zero_elsewhere", "zero where the general signal is zero", "non-zero")
     # mirror: drift -d is the mirror image of drift +d about a start position on a channel centre
     if c["s0"] % FQ == 0 and c["d"] != 0:
